@@ -415,7 +415,17 @@ def run_single(ctx, cfg):
     # isolated NaN: one more hole at a remaining label
     r = np.random.default_rng(cfg["seed"] + 1)
     Mi = masked(M, miss_r, miss_c)
-    Mi[keep_r[int(r.integers(0, len(keep_r)))], keep_c[int(r.integers(0, len(keep_c)))]] = np.nan
+    # the hole must leave its sample partly present inside its own block (list element / variable); a sample that is
+    # entirely missing in one list element only is the separate family below
+    blocks, pos = [], 0
+    for b in LAYOUTS[layout]:
+        w = int(np.prod(b[3]))
+        blocks.append([j for j in range(pos, pos + w) if j in keep_c])
+        pos += w
+    cand = [j for blk in blocks if len(blk) >= 2 for j in blk]
+    if not cand:
+        return checked
+    Mi[keep_r[int(r.integers(0, len(keep_r)))], cand[int(r.integers(0, len(cand)))]] = np.nan
     Xi = build(layout, Mi, tl)
     g, k = expect_raise(lambda: EOF(**kw).fit(Xi, "time"))
     if not g:
@@ -439,6 +449,26 @@ def run_single(ctx, cfg):
                           "%s: transform accepted data whose fully missing features %r differ from the training data's %r (%s)"
                           % (what, mc, miss_c, vn), dict(rp, failed="mask-" + vn))
         ctx.dist["api/single/transform-mask-%s/%s" % (vn, "refused" if g else "ACCEPTED")] += 1
+    if layout == "list":
+        # a sample entirely missing in ONE list element only is not a fully missing sample: refuse at fit and at transform
+        i0 = keep_r[int(r.integers(0, len(keep_r)))]
+        Mo = masked(M, miss_r, miss_c)
+        Mo[i0, :6] = np.nan
+        Xo = build(layout, Mo, tl)
+        lkey = "C06:list:sample-missing-in-one-element"
+        g, k = expect_raise(lambda: EOF(**kw).fit(Xo, "time"))
+        if not g:
+            ctx.violation(lkey + ":fit-not-refused", "%s: fit accepted a sample (position %d) that is entirely NaN in the first list element "
+                          "only" % (what, i0), dict(rp, failed="list-one-element-fit"))
+        try:
+            t = m.transform(Xo)
+            tv = np.asarray(t.transpose("time", "mode").values, float)
+            ctx.violation(lkey + ":transform-not-refused",
+                          "%s: transform accepted a sample (position %d) that is entirely NaN in the first list element only; no error, "
+                          "%d NaN among the returned scores" % (what, i0, int(np.isnan(tv).sum())), dict(rp, failed="list-one-element-transform"))
+            ctx.dist["api/single/list-sample-missing-in-one-element/transform ACCEPTED"] += 1
+        except Exception:
+            ctx.dist["api/single/list-sample-missing-in-one-element/transform refused"] += 1
     if cfg["rotate"]:
         rkw = dict(n_modes=cfg["k"], power=cfg["power"])
         rkey = "C06:rotated:EOFRotator"
@@ -461,7 +491,10 @@ def run_single(ctx, cfg):
                               dict(rp, failed="rot-isolated-transform"))
             checked += 1
         except Exception as e:
-            ctx.violation(rkey + ":error", "%s raised %s: %s" % (rwhat, C.errkind(e), str(e)[:160]), rp)
+            if isinstance(e, RuntimeError) and "did not converge" in str(e):
+                ctx.dist["api/rotated/skipped: rotation did not converge"] += 1   # not a statement about NaN handling
+            else:
+                ctx.violation(rkey + ":error", "%s raised %s: %s" % (rwhat, C.errkind(e), str(e)[:160]), rp)
     return checked
 
 
